@@ -2,7 +2,9 @@ package main
 
 import (
 	"fmt"
+	"go/token"
 	"go/types"
+	"os"
 	"path"
 	"sort"
 	"strings"
@@ -14,12 +16,11 @@ import (
 // inline, one with parts of it moved into snippets (also nested ones, ones that begin with an import, ones that
 // contain a sub-block) or into an imported file (the file system and the lexing of that file being oracles).  Both
 // must be accepted and yield the same blocks: same keys, same directives, same argument texts in the same order.
-func c10R8(h H) {
-	r := h.r
-	r.Rule("R8", "inline = snippet = imported file, as a decision table (E10): parseAll evaluated on configurations given as token lists, each written inline and again with parts moved into snippets (first, middle, last and only line of a block; nested snippets; a snippet that begins with an import; a snippet holding a sub-block; a block without braces) or into an imported file, yields the same server blocks: the same keys and for every directive the same argument texts in the same order", 1)
-	fn := h.fn("R8", cfPkg, "(*parser).parseAll")
+// c10ParseTable evaluates the parser table (see c10R8); it is also what decides C09 R2.
+func c10ParseTable(h H) (bad, envBad string, nrun int, pos token.Pos) {
+	fn := h.p.Func(cfPkg, "(*parser).parseAll")
 	if fn == nil {
-		return
+		return "casketfile.(*parser).parseAll not found", "", 0, token.NoPos
 	}
 	pT := fn.Params[0].Type().(*types.Pointer).Elem()
 	var tokT types.Type = types.Typ[types.Int]
@@ -47,7 +48,7 @@ func c10R8(h H) {
 		must   string // what the inline form has to parse to (where the pair alone would not pin it)
 	}
 	cases := []cs{
-		{"snippet imported in the middle of a block", "host {\n root /a\n gzip foo\n log out\n}", "(s) {\n gzip foo\n}\nhost {\n root /a\n import s\n log out\n}", nil, ""},
+		{"snippet imported in the middle of a block", "host {\n root /a\n gzip foo\n log out\n}", "(s) {\n gzip foo\n}\nhost {\n root /a\n import s\n log out\n}", nil, `{"host": gzip→["gzip" "foo"]; log→["log" "out"]; root→["root" "/a"]}`},
 		{"snippet imported as first line", "host {\n gzip foo\n log out\n}", "(s) {\n gzip foo\n}\nhost {\n import s\n log out\n}", nil, ""},
 		{"snippet imported as last line", "host {\n log out\n gzip foo\n}", "(s) {\n gzip foo\n}\nhost {\n log out\n import s\n}", nil, ""},
 		{"snippet as the only line", "host {\n gzip foo\n}", "(s) {\n gzip foo\n}\nhost {\n import s\n}", nil, ""},
@@ -71,7 +72,8 @@ func c10R8(h H) {
 		{"a token with a line break inside, followed by an argument on its line", "host {\n log a⏎b c\n gzip foo\n}", "(s) {\n log a⏎b c\n}\nhost {\n import s\n gzip foo\n}", nil, `{"host": gzip→["gzip" "foo"]; log→["log" "a\nb" "c"]}`},
 		{"a token with a line break inside ends its line", "host {\n log a⏎b\n gzip foo\n}", "(s) {\n gzip foo\n}\nhost {\n log a⏎b\n import s\n}", nil, `{"host": gzip→["gzip" "foo"]; log→["log" "a\nb"]}`},
 		{"an environment value with a line break, followed by an argument on its line", "host {\n log {$NL} c\n gzip foo\n}", "(s) {\n log {$NL} c\n}\nhost {\n import s\n gzip foo\n}", nil, `{"host": gzip→["gzip" "foo"]; log→["log" "a\nb" "c"]}`},
-		{"repeated directive keeps its order", "host {\n header /a X 1\n gzip foo\n header /b Y 2\n}", "(s) {\n gzip foo\n header /b Y 2\n}\nhost {\n header /a X 1\n import s\n}", nil, ""},
+		{"repeated directive keeps its order", "host {\n header /a X 1\n gzip foo\n header /b Y 2\n}", "(s) {\n gzip foo\n header /b Y 2\n}\nhost {\n header /a X 1\n import s\n}", nil, `{"host": gzip→["gzip" "foo"]; header→["header" "/a" "X" "1" "header" "/b" "Y" "2"]}`},
+		{"a directive repeated around another one with arguments", "host {\n header /a X 1\n rewrite /old /new\n header /b Y 2\n log out\n}", "(s) {\n rewrite /old /new\n}\nhost {\n header /a X 1\n import s\n header /b Y 2\n log out\n}", nil, `{"host": header→["header" "/a" "X" "1" "header" "/b" "Y" "2"]; log→["log" "out"]; rewrite→["rewrite" "/old" "/new"]}`},
 	}
 	parse := func(text string, files map[string]string) (string, string) {
 		p := &aobj{name: "parser", typ: pT, f: map[string]aval{
@@ -176,10 +178,12 @@ func c10R8(h H) {
 		}
 		return strings.Join(out, " "), ""
 	}
-	bad, nrun := "", 0
 	for _, c := range cases {
 		a, e1 := parse(c.inline, nil)
 		b, e2 := parse(c.other, c.files)
+		if os.Getenv("VT_DEBUG") == "parse" {
+			fmt.Fprintf(os.Stderr, "PARSE %s\n  inline: %s %s\n  other:  %s %s\n", c.name, a, e1, b, e2)
+		}
 		nrun += 2
 		show := func(s string) string { return "`" + strings.ReplaceAll(s, "\n", " ⏎") + "`" }
 		switch {
@@ -198,17 +202,27 @@ func c10R8(h H) {
 			break
 		}
 	}
-	// the one case of this kind the tree is known to get wrong, as an obligation of its own
+	// the one case of this kind the tree is known to get wrong, kept apart
 	{
 		got, e := parse("host {\n log {$NL}\n gzip foo\n}", nil)
 		want := `{"host": gzip→["gzip" "foo"]; log→["log" "a\nb"]}`
-		why := ""
 		if e != "" {
-			why = "`host { ⏎ log {$NL} ⏎ gzip foo ⏎}` with NL=\"a\\nb\": " + e
+			envBad = "`host { ⏎ log {$NL} ⏎ gzip foo ⏎}` with NL=\"a\\nb\": " + e
 		} else if got != want {
-			why = "`host { ⏎ log {$NL} ⏎ gzip foo ⏎}` with NL=\"a\\nb\" parses to " + got + ", the syntax says " + want + " (the line after the value is taken for its arguments)"
+			envBad = "`host { ⏎ log {$NL} ⏎ gzip foo ⏎}` with NL=\"a\\nb\" parses to " + got + ", the syntax says " + want + " (the line after the value is taken for its arguments)"
 		}
-		r.Check(why == "", "R8", "casketfile.(*parser).parseAll/env-value-with-line-break", fn.Pos(), "an environment value that holds a line break does not change which line the following tokens are on", why)
 	}
-	r.Check(bad == "", "R8", "casketfile.(*parser).parseAll/inline-snippet-import-table", fn.Pos(), "a configuration means the same whether its lines are written inline, in a snippet or in an imported file", fmt.Sprintf("%d configurations parsed", nrun), bad)
+	return bad, envBad, nrun, fn.Pos()
+}
+
+func c10R8(h H) {
+	r := h.r
+	r.Rule("R8", "inline = snippet = imported file, as a decision table (E10): parseAll evaluated on configurations given as token lists, each written inline and again with parts moved into snippets (first, middle, last and only line of a block; nested snippets; a snippet that begins with an import; a snippet holding a sub-block; a block without braces) or into an imported file, yields the same server blocks: the same keys and for every directive the same argument texts in the same order", 1)
+	bad, envBad, nrun, pos := c10ParseTable(h)
+	if nrun == 0 {
+		r.Unresolve("R8", bad)
+		return
+	}
+	r.Check(envBad == "", "R8", "casketfile.(*parser).parseAll/env-value-with-line-break", pos, "an environment value that holds a line break does not change which line the following tokens are on", envBad)
+	r.Check(bad == "", "R8", "casketfile.(*parser).parseAll/inline-snippet-import-table", pos, "a configuration means the same whether its lines are written inline, in a snippet or in an imported file", fmt.Sprintf("%d configurations parsed", nrun), bad)
 }
